@@ -29,7 +29,7 @@ ASSUMPTIONS = ["names with equal keys (leading zeros) may come out in either ord
 NUMERALS = {"I": 1, "II": 2, "III": 3, "IV": 4}
 
 
-def sort_names(names, ranks=None, smart=False):
+def sort_names(names, ranks=None, smart=False, as_overlap_results=False):
     from tola.assembly.fragment import Fragment
 
     asm = Assembly("a")
@@ -37,6 +37,13 @@ def sort_names(names, ranks=None, smart=False):
         # scaffolds carry sequence of varying length (bare scaffolds all have length 0)
         rows = [Fragment("c", 1, 1 + (len(n) * 7919 + i * 104729) % 5000, 1)] if (len(n) + i) % 3 else []
         rank = ranks[i] if ranks else 0
+        if as_overlap_results:
+            # the scaffolds the remapper sorts are OverlapResult objects (a Scaffold subclass) built with their rank
+            from tola.assembly.overlap_result import OverlapResult
+
+            total = sum(r.length for r in rows)
+            asm.add_scaffold(OverlapResult(Fragment("bait", 1, max(1, total), 1), rows, 1, total, name=n, rank=rank))
+            continue
         # rank 0 is the constructor's default: leave it to the constructor
         asm.add_scaffold(Scaffold(n, rows, rank=rank) if rank else Scaffold(n, rows))
     if smart:
@@ -135,9 +142,9 @@ def body_numeric(case, rec):
     elif kind == "rank":
         names = case["names"]
         ranks = case["ranks"]
-        sm = sort_names(names, ranks, smart=True)
+        sm = sort_names(names, ranks, smart=True, as_overlap_results=bool(case.get("overlap_results")))
         if [r for r, _ in sm] != sorted(ranks):
-            raise Violation(f"rank does not take precedence over name: {sm}")
+            raise Violation(f"rank does not take precedence over name{' (OverlapResult objects)' if case.get('overlap_results') else ''}: {sm}")
         return
     for order in ([lo, hi], [hi, lo]):
         got = sort_names(order)
@@ -332,8 +339,13 @@ def numeric_cases(draw):
     s = draw(st.sampled_from(["", "_unloc_1", "A", "B", "_x", ".q", "-r"]))
     case = {"kind": kind, "p": p, "s": s, "a": 0, "b": 0}
     if kind == "decimal":
-        a = draw(st.integers(0, 10**6))
-        case["a"], case["b"] = a, a + draw(st.integers(1, 10**6))
+        if draw(st.integers(0, 3)) == 0:
+            # numbers beyond 2**53 / 2**64 that differ only in their last digits (time stamps, accession-like ids)
+            a = draw(st.sampled_from([2**53, 2**63, 2**64, 10**20, 10**30])) + draw(st.integers(-3, 1000))
+            case["a"], case["b"] = a, a + draw(st.integers(1, 3))
+        else:
+            a = draw(st.integers(0, 10**6))
+            case["a"], case["b"] = a, a + draw(st.integers(1, 10**6))
         if p == "":
             case["p"] = "q"
     elif kind == "numeral":
@@ -352,6 +364,7 @@ def numeric_cases(draw):
         n = draw(st.integers(2, 8))
         case["names"] = [draw(name()) for _ in range(n)]
         case["ranks"] = [draw(st.sampled_from([0, 1, 2, 3])) for _ in range(n)]
+        case["overlap_results"] = draw(st.integers(0, 2)) == 0
     return case
 
 
